@@ -2,6 +2,7 @@
    The rules are the declarative judgement ExprRules.has_width (one rule per sentence of the
    property); proofs live in ExprRulesProofs.v. *)
 From HclV Require Import Base Expr ExprRules ExprRulesProofs Generated Build CompleteSpec CompleteProofs.
+From HclV Require TextLevelSpec TextLevelProofs.
 Open Scope N_scope.
 
 (* the checker accepts exactly the expressions the rules derive, with exactly the derived width *)
@@ -50,3 +51,11 @@ Theorem C08_program_accepted_iff_rules_hold :
     fault_free f gen_fixed is_lower is_upper stmts.
 Proof. exact accepted_iff_fault_free_gen_holds. Qed.
 Print Assumptions C08_program_accepted_iff_rules_hold.
+
+(* ---- END TO END, from the program TEXT (TextLevelSpec.v / TextLevelProofs.v): the user's file (valid
+   UTF-8) after the compiled preamble, lexed with any Unicode classification, parsed with the compiled
+   tier table, built with the compiled component table; states = those reachable by loading an
+   image and stepping.  No hypothesis a user cannot check by reading the file. ------------------- *)
+Theorem C08_text_level : TextLevelSpec.stmt_text_accepted_iff_fault_free.
+Proof. exact TextLevelProofs.text_accepted_iff_fault_free_holds. Qed.
+Print Assumptions C08_text_level.
